@@ -5,6 +5,7 @@
 //!   dmnsim selftest determinism [ID...] [--runs N]
 //!   dmnsim child ... / exec-plan ...      (internal)
 
+mod c13;
 mod c17;
 mod c18;
 mod c20;
@@ -24,6 +25,7 @@ use std::time::Duration;
 
 fn lookup(id: &str) -> Option<&'static dyn Sim> {
   match id {
+    "C13" => Some(&c13::C13),
     "C17" => Some(&c17::C17),
     "C18" => Some(&c18::C18),
     "C20" => Some(&c20::C20),
@@ -31,7 +33,7 @@ fn lookup(id: &str) -> Option<&'static dyn Sim> {
   }
 }
 
-const ALL: [&str; 3] = ["C17", "C18", "C20"];
+const ALL: [&str; 4] = ["C13", "C17", "C18", "C20"];
 
 /// Process time zones of blocks of runs, as POSIX TZ strings (independent of the zoneinfo files):
 /// UTC, Europe/Warsaw, America/New_York, Australia/Lord_Howe (half-hour DST shift), Pacific/Kiritimati (+14).
